@@ -216,8 +216,11 @@ def _registry(ctx):
     env = world.env(MOD)
     table = world.const(MOD, 'ALL_FORMATS')
     base = world.cls(MOD, 'FileInspector')
+    # the inspectors proper: classes that give themselves a format NAME
+    # (private helper bases shared by several inspectors do not)
     classes = [v for v in env.values() if isinstance(v, ClassRef) and
-               v is not base and v.is_subclass(base)]
+               v is not base and v.is_subclass(base) and
+               isinstance(v.attrs.get('NAME'), K) and v.attrs['NAME'].v]
     rep.count('inspector classes', len(classes), floor=10)
     for c in classes:
         name, _o = c.lookup('NAME')
